@@ -215,7 +215,19 @@ impl Engine for LiveEngine {
         } else {
             (sim, store, clients)
         };
+        // transient family (own tape): the first three record-write attempts of the run fail (the
+        // flusher gives one batch up after three attempts), then the device is healthy again; what
+        // was given up must be retried by the periodic trigger, without any further write and
+        // without flush()
+        let mut tr = Tape::fresh(mix(seed, 0x7A45));
+        let transient = !slow_reader && !swept && !steady && !burst && !hot && tr.chance(1, 4);
+        let mut sim = sim;
+        if transient {
+            sim.buggify.insert("record_write".into(), 1000);
+            sim.buggify_limits.insert("record_write".into(), 3 * (1 + tr.below(2)));
+        }
         let mut knobs = BTreeMap::new();
+        knobs.insert("transient".into(), transient as i64);
         knobs.insert("swept".into(), swept as i64);
         knobs.insert("slow_reader".into(), slow_reader as i64);
         knobs.insert("steady".into(), (steady && !slow_reader && !swept) as i64);
@@ -246,6 +258,10 @@ impl Engine for LiveEngine {
         }
         let store = Arc::clone(env.st());
         let disk = env.disk.clone().unwrap();
+        if sc.knob("transient", 0) == 1 {
+            report.count("transient_failure_runs", 1);
+        }
+        let outage_end = 0u64;
         report.count(&format!("cfg.shards{}_workers{}", store.verif_shard_counts().len(), store.verif_worker_count()), 1);
         let changes: Arc<Mutex<Vec<Change>>> = Arc::new(Mutex::new(Vec::new()));
         let done: Arc<Mutex<usize>> = Arc::new(Mutex::new(0));
@@ -325,7 +341,8 @@ impl Engine for LiveEngine {
         report.count("shards_receiving_entries", shards_hit.len() as u64);
         report.count("shards_total", store.verif_shard_counts().len() as u64);
         if report.violation.is_none() && !log.is_empty() {
-            let t_last = log.iter().map(|c| c.at).max().unwrap();
+            // (a device outage postpones the bound to the moment the device works again)
+            let t_last = log.iter().map(|c| c.at).max().unwrap().max(outage_end);
             // (1) one bound after the last modification everything is durable
             let wait = (t_last + DURABLE_BOUND_NS).saturating_sub(sim.now_mono());
             sim.sleep(Duration::from_nanos(wait));
@@ -356,7 +373,7 @@ impl Engine for LiveEngine {
             // sweeper keep producing retirements around this instant: they are judged by (3))
             // a reader may hold an extent for as long as its read takes: the bound runs from the
             // later of the last modification and the return of the last read
-            let t_last = log.iter().map(|c| c.at).max().unwrap().max(last_read_done);
+            let t_last = log.iter().map(|c| c.at).max().unwrap().max(last_read_done).max(outage_end);
             let wait = (t_last + RETIRE_BOUND_NS).saturating_sub(sim.now_mono());
             sim.sleep(Duration::from_nanos(wait));
             let pending = store.verif_retirements_pending();
